@@ -28,7 +28,7 @@ def build_ops():
         ops.append(("get", n))
         ops.append(("pop", n))
     ops += [("line", "A: 1\r\n"), ("line", "b-c:2"), ("line", "a:\t 3 \n"),
-            ("cont", " x\r\n"), ("cont", "\ty"), ("cont", "  \r\n"),
+            ("cont", " x\r\n"), ("cont", "\ty"), ("cont", "  \r\n"), ("cont", " \xa0z\xa0\r\n"),
             ("copymut", "A"), ("copymut", "b-c"),
             ("setdefault", "a", "9"), ("items",), ("str_rt",), ("update", "B-C", "7")]
     return ops
